@@ -281,7 +281,12 @@ func sanitize(s string) string {
 
 func (s *Script) fresh(hint string) string {
 	s.n++
-	return fmt.Sprintf("%s!%d", sanitize(hint), s.n)
+	h := sanitize(hint)
+	if h == "" || h[0] == '.' || h[0] == '$' || (h[0] >= '0' && h[0] <= '9') {
+		// SMT-LIB reserves simple symbols that start with '.' or a digit
+		h = "v" + h
+	}
+	return fmt.Sprintf("%s!%d", h, s.n)
 }
 
 func (s *Script) Decl(hint string, sort Sort) Term {
